@@ -52,6 +52,55 @@ prop("C13",
      [fam("mix","H",40000), fam("mix","L",40000), fam("nolimit","L",20000), fam("evict","H",20000), fam("evict","L",20000), fam("expiry","L",20000), fam("stream","H",20000), fam("stream","L",20000), fam("pool","P",20000),
       fam("dfs-cancel","H",200000), fam("dfs-stream","L",200000), fam("dfs-evict","L",100000), fam("dfs-expiry","L",100000), fam("dfs-lock3","H",100000)])
 
+
+prop("C03",
+     ["C03_only_key_waits_block", "C03_absent_key_no_wait", "C03_free_key_no_wait", "C03_free_mutex_has_no_waiters",
+      "C03_release_hands_over", "C03_handed_waiter_runs", "C03_waiter_never_detached", "C03_blocked_only_by_client_guards", "C03_witness"],
+     ["C14.lost_wakeup", "C03.", "C13.panic"],
+     [fam("dfs-lock3","H",3000), fam("dfs-lock2","L",4000), fam("nolimit","H",1500), fam("nolimit","L",1500), fam("dfs-cancel","H",4000), fam("dfs-stream","L",3000), fam("stream","H",800)],
+     [fam("dfs-lock3","H",200000), fam("dfs-lock3","L",200000), fam("dfs-lock2","L",200000), fam("nolimit","H",40000), fam("nolimit","L",40000), fam("dfs-cancel","H",200000), fam("dfs-stream","L",200000), fam("stream","H",20000), fam("stream","L",20000)])
+prop("C06",
+     ["C06_cancel_pending_lock", "C06_cancel_stream_entry", "C06_no_residue", "C06_witness"],
+     ["C04.", "C12.", "C13.", "C06."],
+     [fam("dfs-cancel","H",6000), fam("dfs-cancel","L",6000), fam("dfs-stream","L",4000), fam("dfs-stream","H",4000), fam("nolimit","H",1500), fam("stream","L",1500), fam("evict","L",800), fam("mix","L",800)],
+     [fam("dfs-cancel","H",300000), fam("dfs-cancel","L",300000), fam("dfs-stream","L",300000), fam("dfs-stream","H",300000), fam("nolimit","H",40000), fam("nolimit","L",40000), fam("stream","L",40000), fam("stream","H",40000), fam("evict","L",20000), fam("mix","L",20000), fam("pool","P",20000)])
+prop("C07",
+     ["C07_offered", "C07_no_callback", "C07_no_limit_no_callback", "C07_bound", "C07_witness"],
+     ["C07."],
+     [fam("evict","H",2500), fam("evict","L",2500), fam("dfs-evict","L",4000), fam("dfs-evict","H",4000)],
+     [fam("evict","H",60000), fam("evict","L",60000), fam("dfs-evict","L",300000), fam("dfs-evict","H",300000), fam("mix","H",20000,"monitor")])
+prop("C08",
+     ["C08_all_locked_proceeds", "C08_never_waits", "C08_callback_holds_nothing", "C08_reentrant", "C08_error_propagates", "C08_witness"],
+     ["C08.", "C13."],
+     [fam("evict","H",2500), fam("evict","L",2500), fam("dfs-evict","L",4000), fam("dfs-evict","H",4000)],
+     [fam("evict","H",60000), fam("evict","L",60000), fam("dfs-evict","L",300000), fam("dfs-evict","H",300000)])
+prop("C09",
+     ["C09_offer_is_lru_prefix", "C09_lookup_promotes", "C09_only_the_subject_key_moves", "C09_witness"],
+     ["C09."],
+     [fam("evict","L",3000), fam("dfs-evict","L",5000), fam("mix","L",1000)],
+     [fam("evict","L",100000), fam("dfs-evict","L",300000), fam("mix","L",40000)])
+prop("C10",
+     ["C10_call_is_total", "C10_exact", "C10_stamp_is_unlock_time", "C10_tick", "C10_witness", "C10_witness_max"],
+     ["C10.", "C13.panic"],
+     [fam("expiry","L",3000), fam("dfs-expiry","L",5000)],
+     [fam("expiry","L",100000), fam("dfs-expiry","L",300000), fam("mix","L",40000)])
+prop("C11",
+     ["C11_snapshot", "C11_stream_step", "C11_never_yields_valueless", "C11_end_iff_done", "C11_witness"],
+     ["C11."],
+     [fam("stream","H",2500), fam("stream","L",2500), fam("dfs-stream","L",4000), fam("dfs-stream","H",4000)],
+     [fam("stream","H",60000), fam("stream","L",60000), fam("dfs-stream","L",300000), fam("dfs-stream","H",300000)])
+prop("C14",
+     ["C14_exclusive", "C14_try_succeeds_when_free", "C14_try_fails_when_held", "C14_waits_for_holder", "C14_reporting",
+      "C14_no_values_without_guard_ops", "C14_empty_when_idle", "C14_witness"],
+     ["C01.", "C04.", "C12.", "C13.", "C14."],
+     [fam("pool","P",5000)],
+     [fam("pool","P",150000)])
+prop("C15",
+     ["C15_callback_panic_like_error", "C15_panic_reaches_caller", "C15_closure_panic", "C15_values_are_those_committed", "C15_still_consistent", "C15_witness"],
+     ["C02.", "C04.", "C12.", "C13.", "C15."],
+     [fam("evict","H",2500), fam("evict","L",2500), fam("mix","H",1500), fam("mix","L",1500)],
+     [fam("evict","H",60000), fam("evict","L",60000), fam("mix","H",40000), fam("mix","L",40000), fam("dfs-evict","L",200000)])
+
 plan = dict(allowed_axioms=[], trusted_base=TRUSTED, assumptions=ASSUME, properties=P)
 json.dump(plan, open(os.path.join(ROOT, "plan.json"), "w"), indent=1)
 
@@ -61,6 +110,15 @@ TEXT = {
  "C02": "Theorem: no model step other than an operation on a guard (or consuming the container) changes any stored value, a guard operation only touches its own key, and a new guard reports the stored value; co-simulation compares every value the implementation reports; shadow-map monitor on the implementation.",
  "C04": "Theorem: in every reachable model state the key set equals valued keys + keys with a live guard + keys some in-flight call holds a handle on; quiescent => exactly the valued keys; count/keys report that set. Co-simulation compares the key set and replica counts after every atomic segment; monitor recomputes the expected set from the harness' own bookkeeping.",
  "C12": "Theorem: in a reachable quiescent state into_entries_unordered is enabled, does not panic and returns exactly one pair per valued key with the stored value; co-simulation + multiset monitor on runs that end with consume.",
+ "C03": "PARTIAL (protocol level). Theorems: every in-flight call that is not waiting for a per-key mutex is enabled in every reachable state; free/absent keys are acquired without waiting; a free mutex has no waiters; release hands the key to the oldest waiter; a handed waiter can run; waiters are never detached; if nobody can move, every waiter waits for a client-owned guard. Co-simulation compares the implementation's set of blocked agents with the model's after every segment (lost wake-ups show as a mismatch); watchdog/self-deadlock detection in the harness. Not shown: that the runtime delivers wake-ups in finite time.",
+ "C06": "Theorems: cancelling a pending async_lock (queued or handed) or dropping any pending per-entry future of a stream is always enabled, panics never, removes the call, reserves nothing, changes no value/guard and re-establishes the invariant; quiescent states contain exactly the valued keys. Co-simulation over exhaustive interleavings of cancel points x the other party's steps; monitors for leaked keys, panics and consume.",
+ "C07": "Theorems: the callback is invoked only by a soft-limited call when len >= N, with a non-empty list of at most len-(N-1) distinct, previously unlocked, valued entries (exactly the first ones in iteration order), each now held by the offered guard and reported with its stored value; none without a limit or below it; when the call proceeds the container has at most max(N, non-evictable+1) entries. Co-simulation + callback-argument monitor. The multi-round termination with a cooperative callback is exercised, not proved.",
+ "C08": "PARTIAL (protocol level, like C03). Theorems: nothing evictable => proceeds without callback; the eviction step is always enabled; in the callback the call holds no handle and new (re-entrant) calls can start; a callback error ends the call with that error and leaves nothing. Harness: BeforeCallback hook asserts the global lock is not held; DFS over two soft-limited lockers.",
+ "C09": "Theorems: what is offered is the prefix of the evictable entries in recency order; a lock call's look-up moves its key to the MRU end; no step moves, adds or removes any key other than its subject key (the key of the lock call / of the guard being unlocked). The derivation of the interval formulation of the property from these is an argument in DESIGN.md, not a Coq theorem. Co-simulation compares the exact LRU order after every segment and the order of offered guards.",
+ "C10": "Theorems: the call is total over all durations; the scan returns exactly the unlocked valued entries with stamp <= cut-off, each once with its value, and leaves every other entry and the order untouched; the stamp is the clock at the start of the guard drop; ticks change nothing. Co-simulation with a mock clock; monitor recomputes the expected set from the harness' own record of drops.",
+ "C11": "Theorems: the snapshot is exactly the keys present at the critical section; the pending set never grows; an item is for a pending key, has the stored value, a live guard, and leaves the pending set; valueless guards are never yielded; end is reported iff the pending set is empty. Co-simulation incl. the per-entry sub-steps; stream monitor.",
+ "C14": "Instances of the C01/C02/C04 theorems for the hash-map configuration without limits, plus try-lock success/failure and emptiness when idle. The harness drives the real LockPool type.",
+ "C15": "Theorems: a panicking eviction callback leaves exactly the state an erroring one leaves; the panic reaches the caller after the guards it owned were released; a panicking value_or_insert_with closure changes nothing; values are untouched by everything the library does; all later states satisfy the invariant. Harness injects panics at callbacks and closures (cbret panic, cpanic) and keeps using the container.",
  "C13": "Theorem: no label makes the model panic in any reachable state (all expect/assert sites and the slow_assertions check at both ends of every critical section are modelled as RPanic); co-simulation runs the real crate with slow_assertions and catches panics, poisoning, self-deadlock and hangs.",
 }
 ids = [json.loads(l)["id"] for l in open(os.path.join(ROOT, "properties.jsonl"))]
